@@ -149,6 +149,37 @@ mod sd {
             self.hr
         }
         fn deserialize_any<V: Visitor<'de>>(self, v: V) -> Result<V::Value, Msg> {
+            LAST_HINT.with(|h| h.set("any"));
+            self.feed(v)
+        }
+        // what the type ASKS the format for is part of being a transparent wrapper: a format may serve `deserialize_str`
+        // and `deserialize_string` differently (a reader that cannot lend text serves `str` from a small scratch area)
+        fn deserialize_str<V: Visitor<'de>>(self, v: V) -> Result<V::Value, Msg> {
+            LAST_HINT.with(|h| h.set("str"));
+            self.feed(v)
+        }
+        fn deserialize_string<V: Visitor<'de>>(self, v: V) -> Result<V::Value, Msg> {
+            LAST_HINT.with(|h| h.set("string"));
+            self.feed(v)
+        }
+        fn deserialize_bytes<V: Visitor<'de>>(self, v: V) -> Result<V::Value, Msg> {
+            LAST_HINT.with(|h| h.set("bytes"));
+            self.feed(v)
+        }
+        fn deserialize_byte_buf<V: Visitor<'de>>(self, v: V) -> Result<V::Value, Msg> {
+            LAST_HINT.with(|h| h.set("byte_buf"));
+            self.feed(v)
+        }
+        serde::forward_to_deserialize_any! {
+            bool i8 i16 i32 i64 i128 u8 u16 u32 u64 u128 f32 f64 char option unit unit_struct newtype_struct seq tuple
+            tuple_struct map struct enum identifier ignored_any
+        }
+    }
+    thread_local! {
+        pub static LAST_HINT: std::cell::Cell<&'static str> = const { std::cell::Cell::new("") };
+    }
+    impl<'de> Feed<'de> {
+        fn feed<V: Visitor<'de>>(self, v: V) -> Result<V::Value, Msg> {
             match self.via {
                 "str" => v.visit_str(std::str::from_utf8(self.input).unwrap()),
                 "borrowed_str" => v.visit_borrowed_str(std::str::from_utf8(self.input).unwrap()),
@@ -159,10 +190,23 @@ mod sd {
                 other => Err(Msg(format!("unknown via {other}"))),
             }
         }
-        serde::forward_to_deserialize_any! {
-            bool i8 i16 i32 i64 i128 u8 u16 u32 u64 u128 f32 f64 char str string bytes byte_buf option unit unit_struct newtype_struct seq tuple
-            tuple_struct map struct enum identifier ignored_any
-        }
+    }
+    /// which `deserialize_*` method the two types ask a format for: (LeanString, String)
+    pub fn de_hints() -> (&'static str, &'static str) {
+        let _ = <LeanString as serde::Deserialize>::deserialize(Feed { via: "str", input: b"x", hr: true });
+        let a = LAST_HINT.with(|h| h.get());
+        let _ = <String as serde::Deserialize>::deserialize(Feed { via: "str", input: b"x", hr: true });
+        let b = LAST_HINT.with(|h| h.get());
+        (a, b)
+    }
+    pub fn de_in_place_hints() -> (&'static str, &'static str) {
+        let mut l = LeanString::new();
+        let _ = <LeanString as serde::Deserialize>::deserialize_in_place(Feed { via: "str", input: b"x", hr: true }, &mut l);
+        let a = LAST_HINT.with(|h| h.get());
+        let mut s = String::new();
+        let _ = <String as serde::Deserialize>::deserialize_in_place(Feed { via: "str", input: b"x", hr: true }, &mut s);
+        let b = LAST_HINT.with(|h| h.get());
+        (a, b)
     }
 
     pub fn ser_calls(s: &LeanString) -> Vec<(String, Vec<u8>)> {
@@ -237,6 +281,17 @@ pub fn codec(out_dir: &str) -> i32 {
         let _ = pending.set_len(0);
         let _ = pending.write_all_at(s.as_bytes(), 0);
     };
+    #[cfg(feature = "ls-serde")]
+    {
+        let (a, b) = sd::de_hints();
+        if a != b {
+            finding("de_hint", json!([]), json!(b), json!(a), &mut findings, &mut kinds);
+        }
+        let (a, b) = sd::de_in_place_hints();
+        if a != b {
+            finding("de_hint_in_place", json!([]), json!(b), json!(a), &mut findings, &mut kinds);
+        }
+    }
     for line in stdin.lock().lines() {
         let Ok(line) = line else { continue };
         if !line.starts_with('"') {
